@@ -428,7 +428,8 @@ def run_shard(spec, res):
             base = ['--delim', cli_dlm, '--policy', pol, '--query', qtext_csv] + (['--with-headers'] if has_header else [])
             fmt = 'input' if ml else ['input', 'csv', 'tsv'][n % 3]
             dl, pol_o = {'input': (dlm, pol), 'csv': (',', 'quoted'), 'tsv': ('\t', 'simple')}[fmt]
-            p = run_cli(base + ['--input', inp, '--output', outp, '--out-format', fmt], cd if n % 2 else d)
+            # the mode word is optional for csv: `rbql csv --input ...` and `rbql --input ...` are the same command
+            p = run_cli((['csv'] if n % 4 == 1 else []) + base + ['--input', inp, '--output', outp, '--out-format', fmt], cd if n % 2 else d)
             res.count('cli_runs')
             if p.returncode != 0 or p.stdout:
                 res.violation('py:cli-exit-status-or-stdout:file', '[cli file] %s: exit %d stdout %r stderr %r' % (qtext_csv, p.returncode, p.stdout[:80], p.stderr[-200:]), dict(case, front_end='cli-file'))
@@ -712,10 +713,12 @@ def failing_leg(ns, res, spec, d, rng):
                ('', 'query parsing'), (' ', 'query parsing'), ('select', 'query parsing'), ('where a1 == "a"', 'query parsing'), ('# only a comment', 'query parsing'), (';', 'query parsing'),
                ('select a1 order by', 'syntax error'), ('select a1 join jn_1.csv on a1 == b9', 'query execution'), ('select a1 strict left join jn_1.csv on a1 == b1', 'query execution')]
     for qtext, etype in failing:
-        for mode in ('file', 'stdout', 'sqlite'):
+        for mode in ('file', 'csv-word', 'stdout', 'sqlite'):
             outp = os.path.join(d, 'o.csv')
             if mode == 'file':
                 p = run_cli(['--input', inp, '--delim', ',', '--policy', 'quoted', '--query', qtext, '--output', outp], d)
+            elif mode == 'csv-word':
+                p = run_cli(['csv', '--input', inp, '--delim', ',', '--policy', 'quoted', '--query', qtext, '--output', outp], d)
             elif mode == 'stdout':
                 with open(inp, 'rb') as f:
                     p = run_cli(['--delim', ',', '--query', qtext], d, stdin=f.read())
@@ -751,6 +754,16 @@ def failing_leg(ns, res, spec, d, rng):
         case = {'leg': 'failing-empty-message', 'args': args, 'mode': mode}
         if p.returncode == 0 or not [l for l in p.stderr.decode('utf-8', 'replace').splitlines() if l.startswith('Error [')]:
             res.violation('py:cli-failure-without-message-reported-as-success', '[cli %s] %r: exit %d stderr %r stdout %r' % (mode, args, p.returncode, p.stderr[-200:], p.stdout[:100]), case)
+    # usage errors (a missing --delim, an unknown policy, a missing database or input file): a failure like any other - non-zero exit status, nothing on stdout
+    for args in (['--query', 'select a1', '--input', inp], ['csv', '--query', 'select a1', '--input', inp], ['--delim', ',', '--policy', 'nosuch', '--query', 'select a1', '--input', inp],
+                 ['sqlite', os.path.join(d, 'missing.sqlite'), '--input', 't', '--query', 'select a1'], ['csv', '--delim', ',', '--query', 'select a1', '--input', os.path.join(d, 'missing.csv')]):
+        p = run_cli(args, d)
+        res.evaluations += 1
+        res.count('cli_failing_runs')
+        res.count('cli_usage_error_runs')
+        res.distinct_disjoint += 1
+        if p.returncode == 0 or p.stdout.strip():
+            res.violation('py:cli-usage-error-reported-as-success', '[cli] %r: exit %d stdout %r stderr %r' % (args, p.returncode, p.stdout[:100], p.stderr[-200:]), {'leg': 'failing-usage', 'args': args})
     # warnings go to stderr, stdout holds nothing but table data
     for qtext, kind in (('select a1, a7', 'none'), ('select a1, a2', None)):
         with open(inp, 'rb') as f:
@@ -778,7 +791,7 @@ def summarize(tier, seed, m):
     fe = {k[10:]: v for k, v in m['counters'].items() if k.startswith('front_end:')}
     return {
         'rule': 'rectangular string tables (0-5 rows, 1-4 columns, cells with spaces, quotes, commas, non-ASCII, empty; one case in six with line breaks inside cells, run through the quoted_rfc dialect; duplicated column names in 15% of the headed cases; one case in five (quoted policies) written the way a spreadsheet exports it - a UTF-8 byte order mark and every field quoted; one case in eleven with records shorter or longer than the first, run through the front-ends that can hold such a table; no tabs) with and without header; type-agnostic structured queries (select / where / order / distinct / distinct count / top / inner join / update / except / aggregates) rotating systematically over clause combinations; a case whose reference run fails (runtime errors, and a column referred to as a.NAME where the header says name - one headed case in thirteen) must fail through every entry point as well; each executed through query_table (reference) and through 8 entry points: rbql.query with user-written iterator / writer / registry classes, query_csv, CLI file -> file and stdin -> stdout in the three output formats, query_pandas_dataframe, query_sqlite_to_csv, CLI sqlite; plus failing queries (parsing, execution, IO, syntax) x {file, stdout, sqlite} for exit status / Error [type] on stderr, and warning routing; plus an options leg over the parameters of the CSV entry points, each compared with query_table over the same data: comment lines (8 prefixes, before the header, between records, at the end, in the join file too) with comment_prefix / --comment-prefix, user variables and functions from an init source (user_init_code, --init-source-file, ~/.rbql_init_source.py under a private HOME; CLI sqlite too), latin-1 files with cells over the whole 0x80-0xff range and --encoding latin-1, and the policy the command line picks when --policy is left out (quoted for , and ; / whitespace for a space / simple otherwise) with a cell whose CSV form depends on the policy. distinct_nontrivial = distinct (query, tables) with a non-empty result + failing scenarios.',
-        'required': ['cases', 'bom_quote_all_cases', 'multiline_cases', 'ragged_cases', 'failing_reference_cases', 'miscased_column_reference_cases', 'failing_reference_front_end:sqlite', 'failing_reference_front_end:pandas', 'failing_reference_front_end:query_csv', 'front_end:query+user-classes', 'front_end:query_csv', 'front_end:pandas', 'front_end:sqlite', 'front_end:cli-sqlite', 'front_end:cli-file-tsv', 'front_end:cli-file-csv', 'front_end:cli-file-input', 'front_end:cli-stdin-stdout-csv', 'cli_failing_runs', 'cli_failing_runs_empty_message', 'cli_warning_runs', 'option_cases:comment', 'option_cases:init', 'option_cases:latin1', 'option_cases:defpolicy', 'front_end:cli-file+comment', 'front_end:cli-stdin+init', 'front_end:cli-sqlite+init', 'front_end:query_csv+latin1', 'front_end:cli-file+defpolicy'],
+        'required': ['cases', 'bom_quote_all_cases', 'multiline_cases', 'ragged_cases', 'failing_reference_cases', 'miscased_column_reference_cases', 'failing_reference_front_end:sqlite', 'failing_reference_front_end:pandas', 'failing_reference_front_end:query_csv', 'front_end:query+user-classes', 'front_end:query_csv', 'front_end:pandas', 'front_end:sqlite', 'front_end:cli-sqlite', 'front_end:cli-file-tsv', 'front_end:cli-file-csv', 'front_end:cli-file-input', 'front_end:cli-stdin-stdout-csv', 'cli_failing_runs', 'cli_usage_error_runs', 'cli_failing_runs_empty_message', 'cli_warning_runs', 'option_cases:comment', 'option_cases:init', 'option_cases:latin1', 'option_cases:defpolicy', 'front_end:cli-file+comment', 'front_end:cli-stdin+init', 'front_end:cli-sqlite+init', 'front_end:query_csv+latin1', 'front_end:cli-file+defpolicy'],
         'extra': {'front_end_comparisons': fe},
         'assumptions': ['query_table is the reference (pinned by C01-C05, C07)', 'types are not compared across back ends (CSV and pandas stringify): cells are compared after the stringification every CSV sink applies', 'scratch files are named in.csv / jn.csv / in_<n>.csv / jn_<n>.csv in a directory c<n> per case: a path containing an a./b. token under a header is the C08 known finding, not a front-end difference'],
     }
